@@ -253,6 +253,45 @@ def parse_sessions(strings, prefix, rng, per=40, history=False):
     return ss
 
 
+def parse_in_directory_sessions(rng):
+    """what the parser accepts is a matter of the string alone: the same strings parsed in a working directory that holds files and
+    directories named like them (a string is not a path)"""
+    import tempfile, shutil
+    S = Session("parse-next-to-files")
+    names = ["notes", "ethanol.tucan", "CH4/(1-5)(2-5)(3-5)(4-5)", "C2/(1-2)", "Xe/", "C2H6O", "H2O/(1-3)(2-3)/(1:mass=2)"]
+    d = tempfile.mkdtemp(prefix="c10_")
+    old = os.getcwd()
+    try:
+        for nm in names:
+            path = os.path.join(d, nm.rstrip("/"))
+            if nm.endswith("/"):
+                os.makedirs(path, exist_ok=True)
+                continue
+            os.makedirs(os.path.dirname(path), exist_ok=True)
+            with open(path, "w") as f:
+                f.write(rng.choice(["Xe/", "C2H6O/(1-7)(2-7)(3-7)(4-8)(5-8)(6-9)(7-8)(8-9)", "He2/\n"]))
+        os.chdir(d)
+        for nm in names + [os.path.join(d, "notes"), "./notes"]:
+            S.parse(nm)
+    finally:
+        os.chdir(old)
+        shutil.rmtree(d, ignore_errors=True)
+    return [S]
+
+
+def foreign_character_strings(rng):
+    """every printable ASCII character that is not part of any token, put somewhere into a sentence"""
+    import string
+    token_chars = set(string.ascii_letters + string.digits + "/()-:=,")
+    base = ["CH4/(1-5)(2-5)(3-5)(4-5)", "C2H6O/(1-7)(2-7)(3-7)(4-8)(5-8)(6-9)(7-8)(8-9)/(1:mass=2)(9:rad=2)", "Xe/", "ClH/(1-2)"]
+    out = []
+    for ch in sorted(set(string.printable) - token_chars):
+        s = rng.choice(base)
+        k = rng.randint(0, len(s))
+        out += [s[:k] + ch + s[k:], ch + s, s + ch]
+    return out
+
+
 @check("C10")
 def c10(out, tier, rng):
     alph = "SmallAlphabet" if tier == "quick" else "FullAlphabet"
@@ -283,7 +322,9 @@ def c10(out, tier, rng):
              "H2/(1-3)", "H2/(1-1)", "H/(1-1)", "H2//(1:mass=2,rad=1)", "H2//(1:rad=1,mass=2)", "H2//(1:mass=2)(1:rad=1)", "H2//(1:mass=2)(2:mass=2)",
              "H2//(3:mass=2)", "H2//(1:mass=2,mass=3)", "H2//(1:mass=2)(1:mass=2)", "Xe//(1:mass=129,mass=129)", "CH4/(1-5)(2-5)(3-6)(4-5)", "CH2/(1-4)(2-3)",
              "C2H6O/(1-7)(2-7)(3-7)(4-8)(5-8)(6-9)(7-8)(8-9)", "C999/", "H2O", "", "C", "/C", "C/(1-2", "C2/(1 - 2)", "C2/(1-2) ", "C2/(1-2)/"]
+    more += foreign_character_strings(rng)
     ss += parse_sessions(sorted(set(more)), "lib", rng, per=40, history=True)
+    ss += parse_in_directory_sessions(rng)
     # numbers longer than the interpreter's integer / string conversion limit (4300 digits): still strings over the token alphabet
     ss += parse_sessions(["C2/(1-" + "9" * 4401 + ")", "C2/(1-2)/(1:mass=" + "7" * 4401 + ")", "C2/(" + "1" * 4400 + "-2)"], "huge-numbers", rng, per=10)
     for s in ss:
